@@ -666,6 +666,69 @@ fn cli(m: &Model, ctx: &mut Ctx) {
                 Err(e) => ctx.fail_closed("C20.cli", &e),
             }
         }
+        // the directory search: "directories searched recursively for .asn/.asn1" — the condition under which a file found by
+        // the walk is handed to the compiler is evaluated on file names (helpers of the binary followed): a module file the walk
+        // skips is a source the library would have compiled, so the CLI's bindings (or its exit status) differ from the library's
+        {
+            struct Ifs { out: Vec<syn::ExprIf> }
+            impl model::DeepCb for Ifs {
+                fn expr(&mut self, e: &syn::Expr) {
+                    if let syn::Expr::If(i) = e {
+                        let t = tok(&i.then_branch);
+                        if t.contains(".push(") && t.contains("into_path") {
+                            self.out.push(i.clone());
+                        }
+                    }
+                }
+            }
+            let mut ifs = Ifs { out: vec![] };
+            model::deep_walk_block(&f.block, &mut ifs);
+            struct Locals { out: Vec<String> }
+            impl model::DeepCb for Locals {
+                fn local(&mut self, l: &syn::Local) {
+                    if let Some(i) = &l.init {
+                        if tok(&i.expr).contains("file_name()") {
+                            self.out.push(tok(&l.pat).trim_start_matches("mut ").to_string());
+                        }
+                    }
+                }
+            }
+            let mut locals = Locals { out: vec![] };
+            model::deep_walk_block(&f.block, &mut locals);
+            ctx.oblige("C20.cli", "module-files", true);
+            // the innermost such `if` (the enclosing `if let Some(dir) = ..` contains it)
+            ifs.out.sort_by_key(|i| tok(i).len());
+            match (ifs.out.first(), locals.out.first()) {
+                (Some(cond_if), Some(var)) if !matches!(&*cond_if.cond, syn::Expr::Let(_)) => {
+                    let mut inl: BTreeMap<String, (Vec<String>, syn::Block)> = BTreeMap::new();
+                    for g in m.fns.iter().filter(|g| g.module == f.module && g.self_ty.is_none() && g.name != "main") {
+                        let ps: Vec<String> = g.sig.inputs.iter().filter_map(|a| match a { syn::FnArg::Typed(t) => Some(tok(&t.pat).replace("mut ", "")), _ => None }).collect();
+                        inl.insert(g.name.clone(), (ps, g.block.clone()));
+                    }
+                    let consts = const_resolver(m);
+                    let ev2 = Evaluator { consts: &consts, call_hook: &crate::eval::no_hook, inline: Some(&inl) };
+                    for (name, want) in [("a.asn", true), ("a.asn1", true), ("Common.v1.asn", true), ("X.680.asn1", true), ("itu-t_x_x501_2019_SelectedAttributeTypes.asn", true), ("UPPER.ASN", false), ("a.txt", false), ("asn", false), ("a.asn.bak", false), ("a.asn2", false), ("README", false)] {
+                        if name == "UPPER.ASN" {
+                            continue; // case is not documented either way
+                        }
+                        let mut env = Env::new();
+                        env.insert(var.clone(), Val::Str(name.into()));
+                        match ev2.eval(&cond_if.cond, &mut env) {
+                            Ok(Val::Bool(b)) => {
+                                if b != want {
+                                    ctx.violate("C20.cli", &format!("module-files:{}", if want { "module-skipped" } else { "other-file-taken" }), &f.file, span_line(cond_if),
+                                        &format!("the directory search of the CLI {} the file `{}`: documented is every file whose name ends in .asn or .asn1 — {}", if b { "takes" } else { "skips" }, name,
+                                            if want { "a module the library compiles when it is given the same paths is missing from the CLI's bindings (or the CLI fails with `No modules`)" } else { "a file that is no module is handed to the compiler" }));
+                                }
+                            }
+                            Ok(o) => ctx.fail_closed("C20.cli", &format!("[module-files {}]: condition evaluated to {}", name, o.show())),
+                            Err(e) => ctx.fail_closed("C20.cli", &format!("[module-files {}]: {}", name, e)),
+                        }
+                    }
+                }
+                _ => ctx.fail_closed("C20.cli", &format!("main: the condition under which a file of the directory walk becomes a source was not found ({} candidates)", ifs.out.len())),
+            }
+        }
         // the scrutinee is the result of compile()
         let bm: Vec<_> = ms.iter().filter(|mt| tok(&mt.expr).contains("backend")).collect();
         ctx.oblige("C20.cli", "builder-chains-agree", true);
